@@ -20,7 +20,58 @@ func (v *Verifier) fnTermFor(fn *ssa.Function) *Term {
 	v.D.declConst(name, "Fn")
 	v.fnByOp[name] = fn
 	t := mk("Fn", name)
+	if !v.D.seen["fnfacts:"+name] {
+		v.D.seen["fnfacts:"+name] = true
+		v.D.facts = append(v.D.facts, tNot(tEq(t, tNilF)))
+		v.defineAxioms(fn, t)
+	}
 	return t
+}
+
+// defineAxioms: a contract clause `define f(self, x...) == body` on function F gives the spec function f its
+// meaning on the function value of F (justified by the obligation post:define proved on F's body).
+func (v *Verifier) defineAxioms(fn *ssa.Function, self *Term) {
+	con, cpkg := v.contractFor(originOf(fn))
+	if con == nil {
+		return
+	}
+	for _, d := range con.Defines {
+		sf := v.C.SpecFuns[d.Name]
+		if sf == nil || len(d.Params) != len(sf.Args) {
+			continue
+		}
+		env := &Env{v: v, st: &State{heap: map[string]*HeapArr{}, ghost: map[string]*Term{}}, vars: map[string]Val{}, pkg: cpkg, frame: &Frame{fn: fn}}
+		var binders []string
+		args := []*Term{self}
+		for i := 1; i < len(d.Params); i++ {
+			qn := "zz_qd_" + d.Params[i]
+			q := mk(sf.Args[i], qn)
+			var ty types.Type
+			for k, cp := range con.Params {
+				if cp == d.Params[i] && k < len(fn.Params) {
+					ty = fn.Params[k].Type()
+				}
+			}
+			env.vars[d.Params[i]] = Val{q, ty}
+			binders = append(binders, "("+qn+" "+sf.Args[i]+")")
+			args = append(args, q)
+		}
+		body, err := env.eval(d.Body)
+		if err != nil {
+			v.errorf("define %s: %v", d.Name, err)
+			continue
+		}
+		app := mk(sf.Ret, "zz_"+d.Name, args...)
+		v.D.declFun("zz_"+d.Name, sf.Args, sf.Ret)
+		ax := tEq(app, body.T)
+		if len(binders) > 0 {
+			ax = mk("Bool", "forall ("+strings.Join(binders, " ")+")", withPattern(ax, app))
+		}
+		v.D.facts = append(v.D.facts, ax)
+		for _, a := range env.st.pc {
+			_ = a
+		}
+	}
 }
 
 func (v *Verifier) constTerm(c *ssa.Const) *Term {
@@ -1114,8 +1165,8 @@ func (v *Verifier) mapUpdate(st *State, x *ssa.MapUpdate) {
 	v.frameCheckKey(st, dom.Key, a, x)
 	dom.write(a, mk(dom.ElSort, "store", dom.read(a), k, tTrue))
 	vals.write(a, mk(vals.ElSort, "store", vals.read(a), k, val))
-	v.recordWrite(dom.Key, a)
-	v.recordWrite(vals.Key, a)
+	v.recordWrite(st, dom.Key, a)
+	v.recordWrite(st, vals.Key, a)
 }
 
 // ---- range
